@@ -19,6 +19,21 @@ FEATURES = {
     "global-store": "def g1_():\n    global G1_\n    G1_ = 5\ng1_()\nprint(G1_)",
     "closure": "def o1_():\n    c1_ = 1\n    def i1_():\n        nonlocal c1_\n        c1_ += 1\n        return c1_\n    return i1_()\nprint(o1_())",
     "return-in-loop": "def r1_():\n    for j_ in [1, 2]:\n        if j_ == 2:\n            return j_\n        print('r', j_)\nprint(r1_())",
+    # the user's identifier is read *inside* the lowered construct, where emitted lambdas / comprehensions bind helper names;
+    # str(X)[:4] makes the value visible without printing addresses
+    "while-test-reads": "n_ = 2\nwhile n_ > 0 and print('c', str({X})[:4]) is None:\n    n_ -= 1\n    print('w', n_, str({X})[:4])",
+    "while-break-reads": "n_ = 3\nwhile print('c', str({X})[:4]) is None and n_:\n    n_ -= 1\n    if n_ == 1:\n        break\n    print('wb', n_, str({X})[:4])\nelse:\n    print('no')",
+    "for-body-reads": "for i_ in [1, 2, 3]:\n    if i_ == 3:\n        break\n    if i_ == 1:\n        continue\n    print('f', i_, str({X})[:4])",
+    "for-iter-reads": "for i_ in [str({X})[:4], 2]:\n    print('fi', i_)",
+    "class-body-reads": "class K_:\n    a = str({X})[:4]\n    def m(s_):\n        return s_.a, str({X})[:4]\nprint(K_.a)",
+    "aug-reads": "d1_ = ['a', 'b']\nd1_[0] += str({X})[:4]\nd1_[len(str({X})[:1]):] += [str({X})[:4]]\nprint(d1_)",
+    "destructuring-reads": "a1_, *b1_ = [str({X})[:4], 2, 3]\n(c1_, d1_), e1_ = (4, str({X})[:4]), 6\nprint(a1_, b1_, c1_, d1_, e1_)",
+    "def-default-reads": "def h1_(a_=str({X})[:4], *, b_=str({X})[:3]):\n    return a_, b_\nprint(h1_())",
+    "nested-loops-read": "for i_ in [1, 2]:\n    for j_ in [1, 2]:\n        if j_ == 2:\n            continue\n        print('n', i_, j_, str({X})[:4])\n    if i_ == 1:\n        continue\n    print('after', i_)",
+    "if-test-reads": "if str({X})[:4] != 'zz' and print('i', str({X})[:4]) is None:\n    print('then')",
+    "comprehension-reads": "print([(str({X})[:4], j_) for j_ in [1, 2] if str({X})[:4]])",
+    "lambda-reads": "print((lambda z_: (str({X})[:4], z_))(1))",
+    "return-reads": "def r2_():\n    for j_ in [1, 2]:\n        if j_ == 2:\n            return str({X})[:4]\n    return None\nprint(r2_())",
 }
 
 
@@ -27,7 +42,7 @@ def ind(s, n=1):
 
 
 def program(X, role, feat):
-    F = FEATURES[feat]
+    F = FEATURES[feat].replace("{X}", X)
     if role == "global":
         return f"{X} = 41\n{F}\nprint({X})\n"
     if role == "local":
@@ -112,7 +127,7 @@ def main(argv):
         for feat in FEATURES:
             for order in ("before", "after"):
                 use = "print(next(itertools.count(5)))" if modname == "itertools" else "print(importlib.import_module('math').floor(2.5))"
-                src = (f"import {modname}\n{FEATURES[feat]}\n{use}\n" if order == "before" else f"{FEATURES[feat]}\nimport {modname}\n{use}\n")
+                src = (f"import {modname}\n{FEATURES[feat].replace('{X}', modname)}\n{use}\n" if order == "before" else f"{FEATURES[feat].replace('{X}', '0')}\nimport {modname}\n{use}\n")
                 for cfg in (gen_prog.CONFIGS if ck.tier == "thorough" else [gen_prog.CONFIGS[(len(feat) + len(order)) % 8]]):
                     v, text = gen_prog.behaviour_check(ol, src, cfg)
                     ck.case(f"own-import|{cfg}|{src}", nontrivial=not v.startswith("skip"))
